@@ -1,7 +1,8 @@
 From Coq Require Import Extraction ExtrOcamlBasic List ZArith.
-From MirV Require Import C08.CLayout C08.SysVLayout C08.CClassify C08.SysVClassify C08.LayoutProofs C08.ClassifyProofs C08.TotalProofs C08.SpanClassify.
+From MirV Require Import C08.CLayout C08.SysVLayout C08.CClassify C08.SysVClassify C08.LayoutProofs C08.ClassifyProofs C08.TotalProofs C08.SpanClassify C08.SigProofs.
 (* ret_pieces: round 3 *)
 Extraction Language OCaml.
 Extraction "c08x.ml" c2m_layout type_size sysv_layout Z.add Z.mul Z.opp Z.of_nat
   wf_ty classify_arg process_ret_type pass_aggregate_arg sysv_classify sysv_pass_arg sysv_return
-  c2m_signature sv_signature blk_of_places c2m_bf_signed sv_bf_signed no_pad no_straddle classify_arg_head ret_pieces.
+  c2m_signature sv_signature blk_of_places c2m_bf_signed sv_bf_signed no_pad no_straddle classify_arg_head ret_pieces
+  c2m_csignature sv_csignature c2m_counters sv_counters.
